@@ -323,6 +323,28 @@ fn handle_violation(
     sum: &mut Summary,
 ) {
     let first = &r.mismatches[0];
+    if first.clause.starts_with("harness-") {
+        sum.violations -= 1;
+        if sum.harness_errors.len() < 5 {
+            sum.harness_errors.push(format!("scenario {index}: {}", first.detail));
+        }
+        return;
+    }
+    if level == "A" {
+        // level A is deterministic: a violation that a fresh child does not reproduce is a
+        // fault of the harness (nondeterminism, overload), not of blockwatch
+        let again = worker::run_forked(w, p);
+        if !again.mismatches.iter().any(|m| m.clause == first.clause) {
+            sum.violations -= 1;
+            if sum.harness_errors.len() < 5 {
+                sum.harness_errors.push(format!(
+                    "scenario {index}: level-A violation `{}` did not reproduce in a fresh child ({})",
+                    first.clause, first.detail
+                ));
+            }
+            return;
+        }
+    }
     let quick_sig = shrink::finding_signature(prop, &first.clause, w);
     if replay_sigs.contains(&quick_sig) || replay_sigs.len() as u64 >= max_replays {
         // already have a replay for this class from this worker
